@@ -48,4 +48,6 @@ def run(ctx, rep):
     rep.run(RM.rule_serialize_pair_complete, ctx, rep, "T17")
     rep.run(RM.rule_containers_registered_before_they_are_judged, ctx, rep, "T18")
     rep.run(RI.rule_class_file_named_after_the_class, ctx, rep, "T19")
+    rep.run(RI.rule_preamble_by_evaluation, ctx, rep, "T20")
+    rep.run(RI.rule_registry_keeps_every_class, ctx, rep, "T21")
     rep.run(RF.rule_locals_defined, ctx, rep, "U1", packages=("gtwrap/matlab_wrapper",), min_functions=3)
